@@ -33,7 +33,13 @@ CLAIMS["C02"] = dict(
          "its buffer, or the full-output path re-creates the integrator from (o1, deltaT)); rows_aliased proves the former defect (aliased buffer, no copy: every row is the final state); "
          "method_dispatch states the two decision tables outright. The model is tied to the code on every run (i) exactly, by driving the real functions with a fake exact integrator of x'=c "
          "with a chosen buffer behaviour, and (ii) by running every entry point x 6 methods x full_output x includeOrigin on random and catalogue models against an independent reference "
-         "(solve_ivp DOP853 1e-12, Radau cross-check, right-hand side from the Lean driver's assembled equations), acceptance |row-ref| <= 1e-6(1+|ref|).",
+         "(solve_ivp DOP853 1e-12, Radau cross-check, right-hand side from the Lean driver's assembled equations), acceptance |row-ref| <= 1e-6(1+|ref|). "
+         "Several calls: the instance state carried between calls (_x0, _t0, _odeTime, _odeSolution) is modelled (Inst/SOp/runOps) and session_is_pure / earlier_results_kept / "
+         "solve_reads_current prove that, for every history of assignments and solves, each result is the single-call function of its own arguments and the values assigned last and "
+         "that earlier results are unaffected (stale_grid_counterexample: a time vector kept when the grid repeats breaks this); tied exactly by random histories on one real model "
+         "against the fake integrator, and searched with the direct oracle by sessions on the real integrators: histories on one instance (change t0 / x0 / parameters / grid / "
+         "container / method / full_output / includeOrigin / entry point, solve, restore, solve), sibling instances (permuted declarations, other values, re-definitions, twin, deepcopy) "
+         "solved interleaved, and every accepted spelling of grid / x0 / t0 / parameters; returned arrays are kept and re-read after every later call, arguments checked for writes.",
     note="Trusted: Lean kernel; scipy.integrate.solve_ivp as reference; the harness fake integrator, float evaluator and generators; hand-written catalogue equations. "
          "Assumed and validated per run: scipy's ode/odeint approximate the flow (well-conditioned instances only; for the odeint entry points, which run at scipy's default tolerance 1.49e-8, "
          "the acceptance is max(1e-6, 20 x the error of scipy's own odeint on the same instance)); set_initial_value copies; `aliased` is measured on the real scipy (lsoda aliases in scipy 1.18). "
@@ -90,7 +96,15 @@ CLAIMS["C09"] = dict(
          "dict entries and unknown names are always rejected.  The model is tied to the code on every run by differential correspondence after "
          "EACH assignment of random mixed-format histories (accept/reject + error kind, the public `parameters` getter, `ode(x,t)` against the "
          "model's `_paramValue`), and a Lean-independent oracle checks `ode`/`grad` against the harness interpreter and a freshly built model "
-         "at the values a plain Python dict spec gives each name, that malformed input raises, and that a rejected assignment changes no evaluation.",
+         "at the values a plain Python dict spec gives each name, that malformed input raises, and that a rejected assignment changes no evaluation. "
+         "Copies and several live instances: for every interleaving of assignments addressed to any live instance and copy.deepcopy of any instance "
+         "at any moment, `_paramValue[i]` of EVERY instance (original, copy, copy of a copy) is the value its own spec map gives `params[i]` - the "
+         "original's map at the moment of the copy, overridden by the copy's own assignments (copies_bind_by_name; a `__setstate__` that rebuilds the "
+         "value list in map insertion order: setstate_rebuild_counterexample).  The harness runs such systems of up to three live instances "
+         "(evaluation continues on the copy and on the original, every instance judged after every operation), transient copy.copy / pickle probes, "
+         "a second model with the same names assigned other values in between, numbers as Python / numpy scalars and int / float arrays, the caller "
+         "overwriting his container afterwards (the evaluations must not follow); a container written to by pygom is recorded as a side effect (tag), "
+         "only wrong evaluations are violations.",
     note="Trusted: Lean kernel + Mathlib; the harness (generator, printer, interpreter, the 40-line Python dict spec of the oracle). The setter variant "
          "(does a rejected assignment leave `_parameters`/`_paramValue` touched) is measured on the tree under test by a fixed probe and passed to the "
          "model; both variants are covered by theorems. Documented non-claims (stated as lemmas): a partial update on a never-set model binds the "
@@ -223,7 +237,15 @@ CLAIMS["C08"] = dict(
          "(never_stale; never_stale_source for the source as modelled). For the tree as found the partial theorem (bad mutators only before "
          "the first evaluation) and concrete stale histories (add_ode after ode; parameter declared after a compile) are proved. "
          "The model is tied to the code on every run: random histories on the real SimulateOde, all 12 evaluators (grad_grad included) observed after every step "
-         "against a freshly constructed model (direct oracle) and against the version the Lean driver predicts.",
+         "against a freshly constructed model (direct oracle) and against the version the Lean driver predicts. "
+         "Two live instances: with one flag dict per canary object (CompileCanary.trip() rebinds self._states - re-extracted from the text of "
+         "compile_canary.py on every run, extracted_store_eq_source) operations addressed to one instance never change an observation of the other, "
+         "in any interleaving (two_instance_noninterference, never_stale_pair, never_stale_pair_extracted); with ONE class-level dict shared by all "
+         "canaries the other instance's compile marks a just-modified model's evaluator up to date (shared_store_stale_counterexample). "
+         "The harness runs histories over two interleaved instances with the same names (driver op canary2 = Canary.pstep), lets the freshly built "
+         "reference evaluate before or after the instance under test (part of the case), calls every evaluator at a second point in every argument "
+         "form (list / tuple / ndarray, int / float dtype, numpy scalars; reference given the same arguments) and re-compares every array returned "
+         "at the end of each round.",
     note="The Lean model (Canary.sourceCfg) describes the tree WITH proposed_fixes/C08-add-ode-trip.diff and C08-decl-setters-refresh-sp.diff applied; "
          "until they are applied ./check C08 reports a VIOLATION on /repo (add_ode, late parameter / state declarations). "
          "Trusted: Lean kernel; harness generator/replay; pymodel route replay; lambda back-end only; 'fresh model' assigns 0 to a parameter "
